@@ -84,9 +84,27 @@ class VerusUnitRun:
         self.expand_info = None
         if getattr(mod, 'NEEDS_ASM_EXPANSION', False):
             exp, self.expand_info = expand_asm()
-        self.unit = mod.build(exp)
-        self.text, self.table = self.unit.emit()
-        self.res = verus_run.run(name, self.text, self.table, scratch, rlimit=rlimit)
+        unitmod.FORCE_DEMOTE = {}
+        for attempt in range(4):
+            unitmod.clear_sources()
+            self.unit = mod.build(exp)
+            self.text, self.table = self.unit.emit()
+            self.res = verus_run.run(name, self.text, self.table, scratch, rlimit=rlimit)
+            if not self.res.fatal:
+                break
+            # Verus' front end rejected the text of some function (construct outside its reach after a change of /repo): demote exactly those
+            # functions (contract assumed, reported undecided) so that the rest of the unit is still decided
+            new = {}
+            for h in self.res.unmapped:
+                ent = verus_run._label_at(self.table, h['line']) if h.get('line') else None
+                if ent is not None and ent['kind'] in ('fn',) and ent.get('spec') is not None and ent['spec'].mode == 'verify' \
+                        and ent['label'] not in unitmod.FORCE_DEMOTE:
+                    new[ent['label']] = 'rejected by the Verus front end: ' + h['message'][:300]
+            if not new:
+                break
+            log('demoting %s and retrying unit %s' % (sorted(new), name))
+            unitmod.FORCE_DEMOTE.update(new)
+        unitmod.FORCE_DEMOTE = {}
         # retry once with a larger rlimit if only resource errors
         if self.res.fatal is None:
             only_resource = [f for f in self.res.fns.values() if f.errors and all(e['resource'] for e in f.errors)]
@@ -212,6 +230,7 @@ def run_property(prop, cfg, tier, seed, scratch, t0):
     solver_ms = 0
     samples = []
     unit_infos = []
+    demoted_labels = []
     for uname in cfg.get('verus_units', []):
         run = VerusUnitRun(uname, scratch)
         res = run.res
@@ -244,6 +263,10 @@ def run_property(prop, cfg, tier, seed, scratch, t0):
                 else:
                     canaries_ok += 1
                 continue
+            if e['label'] in run.unit.demoted:
+                undecided.append('%s: %s is UNDECIDED on the current text (%s)' % (uname, e['label'], run.unit.demoted[e['label']][:300]))
+                demoted_labels.append(uname + '::' + e['label'])
+                continue
             if e['kind'] == 'assumed':
                 esc = [x for x in run.unit.log.escapes if x['fn'] == e['label']]
                 assumed.append({'fn': e['label'], 'contract': esc[0]['contract'] if esc else '', 'why': esc[0]['note'] if esc else ''})
@@ -270,12 +293,20 @@ def run_property(prop, cfg, tier, seed, scratch, t0):
                         violations.append((uname + '::' + e['label'], err, 'verus'))
                     nfail += 1
                 discharged += max(max(fr.obligations, 1) - max(nfail, 1), 0)
-    # ---- Kani harness groups
+    # ---- Kani harness groups (+ fallback groups: bounded checks of functions whose Verus obligations failed or are undecided on the
+    # current text, run to obtain a concrete counterexample on the real compiled code; thorough tier runs them always)
     kani_rows = []
-    if cfg.get('kani'):
+    groups = list(cfg.get('kani', []))
+    troubled = demoted_labels + [lab for lab, _, b in violations if b == 'verus']
+    for fb in cfg.get('fallback', []):
+        if tier == 'thorough' or any(fb['when'] in lab for lab in troubled):
+            g = dict(fb['group'])
+            g['fallback'] = True
+            groups.append(g)
+    if groups:
         import kani_run
-        for group in cfg['kani']:
-            if tier == 'quick' and group.get('tier') == 'thorough':
+        for group in groups:
+            if tier == 'quick' and group.get('tier') == 'thorough' and not group.get('fallback'):
                 continue
             kr = kani_run.run_group(group, scratch, tier)
             cmds.append(kr['cmd'])
